@@ -421,6 +421,7 @@ func init() {
 		"vReach":          func(c *icall) { c.e.res.reach(c.strArg(0)); c.ret(nil) },
 		"vKnown":          vKnown,
 		"vWatch":          vWatch,
+		"vRecvMustOffer":  vRecvMustOffer,
 		"vExpectPanic":    vExpectPanic,
 		"vObserve":        vObserve,
 		"vQuiescent":      vQuiescent,
@@ -569,6 +570,15 @@ func vKnown(c *icall) {
 func vWatch(c *icall) {
 	if p, ok := c.args[1].(Ptr); ok && !p.Obj.IsNil() {
 		c.st.watches = append(c.st.watches, watch{name: c.strArg(0), p: p})
+	}
+	c.ret(nil)
+}
+
+// vRecvMustOffer(elem, done, id): see Engine.checkOffer.
+func vRecvMustOffer(c *icall) {
+	ch := c.e.chanOf(c.args[1])
+	if !ch.IsNil() {
+		c.st.offers = append(c.st.offers, offerRule{elem: c.strArg(0), done: ch, id: c.strArg(2)})
 	}
 	c.ret(nil)
 }
